@@ -9,6 +9,7 @@ def step (op res : String) : List String :=
   | "ccfg", ["ok"] => [s!"br:chain.cfg{w.getD 1 "?"}.ok"]
   | "ccfg", "err" :: name => ["br:chain.cfg.err", s!"DIVERGE dom a valid configuration was rejected by {name}"]
   | _, ["drop"] => ["br:chain.drop"]
+  | _, ["SKIP", _] => ["br:chain.skipped-after-hang"]
   | _, "send" :: "ok" :: _ => ["br:chain.send"]
   | _, "send" :: "rt-unparsable" :: _ => ["br:chain.send", "FAIL C19 the reply of the chain does not parse back"]
   | _, "send" :: "rt-differs" :: _ => ["br:chain.send", "FAIL C19 the reply of the chain parses back to different options"]
